@@ -155,7 +155,7 @@ def judge(scratch: str, case: dict) -> tuple[list[tuple[str, str]], dict]:
 def shard(ctx: core.Ctx) -> None:
 	from rogw.tranp.semantics.reflection.db import SymbolDB
 	from rogw.tranp.semantics.reflection.serialization import IReflectionSerializer
-	exclude = frozenset(e['exclude_flag'] for e in core.load_known('C01') if e.get('status') == 'known' and e.get('exclude_flag')) | frozenset(ctx.excluded)
+	exclude = core.frontend_exclusions() | frozenset(ctx.excluded)
 	s = state(ctx.scratch)
 	if ctx.shard == 0:
 		# the real library modules of the loaded set
